@@ -247,6 +247,31 @@ def run_prim(c) -> CaseResult:
             elif not bool(((gl.double() - gr).abs() <= 8 * eps * gsc + 8 * tiny).all()):
                 res.fail(f"C06.low-precision.input-gradient:{c['lp_dtype']}", f"{c['lp_dtype']} stream: x.grad differs from the derivative of the closed form by "
                          f"{float((gl.double() - gr).abs().max()):.3g} (scale {gsc:.3g}, tau={tau}, branch={c['branch']})")
+    # a branch whose output dtype is wider than the stream's (a float32 sub-network on a half-precision stream): type promotion
+    # decides the result dtype, and residual_apply must still be the split / f / add sequence
+    if c.get("lp_dtype"):
+        dt = getattr(torch, c["lp_dtype"])
+        wide = torch.float64 if dt == torch.float32 else torch.float32
+        fw = lambda t: torch.tanh(t.to(wide)) * 0.75  # noqa: E731
+        try:
+            xa = x0.to(dt).requires_grad_()
+            xb = x0.to(dt).requires_grad_()
+            ya = U.residual_apply(fw, xa, tau)
+            rb_, sb_ = U.residual_split(xb, tau)
+            yb = U.residual_add(fw(rb_), sb_, tau)
+            upw = up.to(yb.dtype)
+            (ga,) = torch.autograd.grad(ya, xa, upw)
+            (gb,) = torch.autograd.grad(yb, xb, upw)
+        except Exception as e:  # noqa: BLE001
+            res.fail(exc_bucket(f"C06.widening-branch.raises:{c['lp_dtype']}", e), f"{type(e).__name__}: {e}")
+        else:
+            epsw = {torch.float32: 2.0**-24, torch.float64: 2.0**-53}[wide]
+            if ya.dtype != yb.dtype or ga.dtype != gb.dtype:
+                res.fail("C06.residual_apply-differs:dtype", f"stream {dt}, branch output {wide}: residual_apply returns {ya.dtype}, split/f/add returns {yb.dtype}")
+            elif not bool(((ya.double() - yb.double()).abs() <= 4 * epsw * max(1e-300, float(yb.double().abs().max()))).all()) or \
+                    not bool(((ga.double() - gb.double()).abs() <= 8 * {torch.bfloat16: 2.0**-8, torch.float16: 2.0**-11, torch.float32: 2.0**-24}[dt]
+                              * max(1e-300, float(gb.double().abs().max()))).all()):
+                res.fail("C06.residual_apply-differs:widening-branch", f"stream {dt}, branch output {wide}: residual_apply differs from split/f/add (tau={tau})")
     # a branch that starts with an in-place op (nn.ReLU(inplace=True) is common in residual branches), with gradient tracking,
     # under no_grad and for an input that does not require grad: the skip path and the caller's x must not be touched
     for mode in ("grad", "no_grad", "no-requires-grad"):
